@@ -31,7 +31,7 @@ for sid in sorted(d for d in os.listdir(os.path.join(ROOT, "seeded")) if os.path
                 f"{', '.join(caught) if caught else ('undecided (exit 2): ' + ', '.join(und) if und else '**missed**')} | {how} |")
 rows.append("")
 rows.append(f"{globals().get('n_own', 0)} of {n} seeded changes are caught by the quick check of the property they were written for, "
-            f"{n_det} of {n} by some registered quick check (C07-3 is reported by C03's check, C16-r3.2 and C16-r3.3 by C14's).")
+            f"{n_det} of {n} by some registered quick check (C07-3 is reported by C03's check, C16-r3.2 and C16-r3.3 by C14's, C01-r5.2 by C05's).")
 p = os.path.join(ROOT, "DESIGN.md")
 s = open(p).read()
 s = re.sub(r"<!-- SEEDED-TABLE-BEGIN -->.*<!-- SEEDED-TABLE-END -->", "<!-- SEEDED-TABLE-BEGIN -->\n" + "\n".join(rows) + "\n<!-- SEEDED-TABLE-END -->", s, flags=re.S)
